@@ -92,7 +92,7 @@ def big_def(rng):
     """Larger, dense automata (6-9 states, 2-3 symbols): many splitting rounds, so a wrong splitter
     schedule in the implementation's refinement shows as an unmerged or wrongly merged class."""
     sigma = rng.choice(["ab", "abc", "abc", "xyz"])
-    n = rng.randint(6, 9)
+    n = rng.randint(6, 9) if rng.random() < 0.4 else rng.randint(9, 14)
     names, _ = gen.pick_names(rng, n, rng.choice(["int", "negint", "str", "tuple"]))
     partial = rng.random() < 0.5
     dens = rng.choice([1.0, 0.95, 0.85]) if partial else 1.0
@@ -101,6 +101,33 @@ def big_def(rng):
     finals = {q for q in names if rng.random() < pf} or {rng.choice(names)}
     return dict(states=set(names), input_symbols=set(sigma), transitions=trans, initial_state=names[0],
                 final_states=finals, allow_partial=partial)
+
+
+def collision_def(rng):
+    """Kept states 0..k-1 (sometimes also -1) with at least one missing transition, plus an UNREACHABLE state
+    named -1 (or -2) that has transitions into the kept states and whose row comes last in the table: the
+    implicit trap of the minimiser gets the first free negative name, which must not be this state's."""
+    sigma = rng.choice(["a", "ab", "ab", "abc"])
+    k = rng.randint(1, 4)
+    kept = list(range(k))
+    dropped = -1
+    if rng.random() < 0.3:
+        kept.append(-1)
+        dropped = -2
+    trans = {}
+    for q in kept:
+        trans[q] = {a: rng.choice(kept) for a in sigma if rng.random() < 0.7}
+    if all(len(trans[q]) == len(sigma) for q in kept):
+        q = rng.choice(kept)
+        trans[q].pop(rng.choice(sorted(trans[q])))
+    trans[dropped] = {a: rng.choice(kept) for a in sigma if rng.random() < 0.9}
+    if rng.random() < 0.3:
+        trans = dict(reversed(list(trans.items())))     # the stray row first
+    finals = {q for q in kept if rng.random() < 0.5} or {rng.choice(kept)}
+    if rng.random() < 0.3:
+        finals.add(dropped)
+    return dict(states=set(kept) | {dropped}, input_symbols=set(sigma), transitions=trans, initial_state=0,
+                final_states=finals, allow_partial=True)
 
 
 def corner_defs():
@@ -365,15 +392,67 @@ def exhaustive_complete_defs(nmax):
                                                    allow_partial=False))
 
 
+def stress_minify(ctx, n):
+    """Refinement-schedule stress: many complete DFAs with 8-14 states over {a,b}; only minify() (and
+    to_partial(minify=True)) are called, the result is judged by state count against the model's minimal
+    DFA and by language against the SOURCE (proved comparator). A splitter left out of Hopcroft's worklist
+    shows on well under 1% of such inputs, hence the volume."""
+    rng = ctx.rng
+    for lo in range(0, n, 300):
+        cases, req = [], []
+        for _ in range(min(300, n - lo)):
+            k = rng.randint(8, 14)
+            names = list(range(k))
+            trans = {q: {a: rng.choice(names) for a in "ab"} for q in names}
+            finals = {q for q in names if rng.random() < rng.choice([0.25, 0.4, 0.5])} or {0}
+            ddef = dict(states=set(names), input_symbols={"a", "b"}, transitions=trans, initial_state=0,
+                        final_states=finals, allow_partial=False)
+            d = mk_dfa(ddef)
+            st, sy = enc.Renum(enc.dfa_names(d)), enc.SymMap(d.input_symbols)
+            src = enc.enc_dfa(d, st, sy)
+            use_partial = rng.random() < 0.3
+            r = outcome(lambda: d.to_partial(minify=True) if use_partial else d.minify())
+            if r[0] != "ok":
+                ctx.violation(f"minimisation raised {r[2]} on a valid complete DFA", {"kind": "dfa", "def": repr(ddef), "tag": "stress"})
+                continue
+            rt = enc.enc_dfa(r[1], None, sy)
+            cases.append((ddef, d, r[1], sy))
+            req.append((5, 2 if use_partial else 1, enc.tree(src)))
+            req.append((0, 1, enc.tree([rt, src])))
+        ans = ctx.driver.batch(req)
+        for i, (ddef, d, res, sy) in enumerate(cases):
+            m = enc.dec_res(ans[2 * i])
+            cmp_ = ans[2 * i + 1]
+            problems = []
+            diff = enc.dec_res(cmp_[4])
+            if diff[0] == "ok" and diff[1]:
+                w = sy.unword(diff[1][0])
+                problems.append(f"language changed: word {w!r} (source accepts {d.accepts_input(w)}, result accepts {res.accepts_input(w)})")
+            if not cmp_[0]:
+                problems.append("result is not valid")
+            if m[0] == "ok":
+                msize = len(m[1][0][0])
+                if len(res.states) != msize:
+                    problems.append(f"result has {len(res.states)} states, the minimal DFA of its kind has {msize}")
+            ctx.tally("stress_minify")
+            ctx.case(("stress", enc.tree(enc.enc_dfa(d, None, sy))), True)
+            if problems:
+                ctx.violation("minimisation (refinement stress) disagrees: " + "; ".join(problems),
+                              {"kind": "dfa", "def": repr(ddef), "tag": "stress", "problems": problems})
+
+
 def run(ctx):
     ctx.rule = RULE
     rng = ctx.rng
     check_defs(ctx, corner_defs())
+    stress_minify(ctx, ctx.n(1800, 20000))
     n = ctx.n(1000, 50000)
     stream = []
     for i in range(n):
         r = i % 5
-        if r == 4:
+        if i % 10 == 7:
+            stream.append(("trap_name_collision_shape", collision_def(rng)))
+        elif r == 4 or r == 3:
             stream.append(("big", big_def(rng)))
         elif r == 0:
             stream.append(("random", gen.rand_dfa_def(rng)))
